@@ -41,6 +41,8 @@ class Verifier:
         self.feas_timeout_ms = feas_timeout_ms
         self.seed = seed
         self.max_paths = max_paths
+        self.probe_depth = None
+        self.feas_no_mbqi = True      # feasibility pruning only needs cheap refutations (E-matching); sat/unknown = keep the path
         self.pow2 = z3.Function('pow2', z3.IntSort(), z3.IntSort())
         self.sumf = z3.Function('sum_int', z3.ArraySort(z3.IntSort(), z3.IntSort()), z3.IntSort(), z3.IntSort())
         self.bjoin = z3.Function('bjoin', z3.ArraySort(z3.IntSort(), z3.SeqSort(z3.BitVecSort(8))),
@@ -139,12 +141,47 @@ class Verifier:
                           detail=f'z3: {reason}; cvc5: {out[:200]}')
 
     # ------------------------------------------------------------------------------------
-    def verify_function(self, key):
-        '''Explore every path of the function; returns (obligations, info).'''
+    def probe_prefixes(self, key, depth):
+        '''All decision prefixes of length <= depth of the function's path tree (complete paths shorter than depth
+        included): the shards of a parallel exploration.  No obligation is discharged while probing.'''
+        c = self.reg.contracts[key]
+        if getattr(c, 'feas_timeout_ms', None):
+            self.feas_timeout_ms = c.feas_timeout_ms
+        self.probe_depth = depth
+        out, decisions = [], []
+        try:
+            while True:
+                ip = Interp(self, decisions)
+                try:
+                    self.run_function(ip, key, c)
+                except PathEnd:
+                    pass
+                out.append(tuple(ip.decisions[:ip.pos]))
+                dec, ar = ip.decisions[:ip.pos], ip.arity[:ip.pos]
+                while dec and dec[-1] + 1 >= (ar[len(dec) - 1] or 1):
+                    dec.pop()
+                if not dec:
+                    break
+                dec[-1] += 1
+                decisions = dec
+                if len(out) > 4096:
+                    raise EngineError(f'{key}: more than 4096 shards')
+        finally:
+            self.probe_depth = None
+            cache = dict(self.feas_cache)
+            self.reset()
+        self.probe_cache = cache      # feasibility verdicts of the prefixes: handed to the shards
+        return out
+
+    def verify_function(self, key, prefix=None):
+        '''Explore every path of the function (below the decision prefix, if one is given); returns (obligations, info).'''
         c = self.reg.contracts[key]
         self.portfolio = bool(getattr(c, 'portfolio', False))
+        if getattr(c, 'feas_timeout_ms', None):
+            self.feas_timeout_ms = c.feas_timeout_ms
         results = []
-        decisions = []
+        prefix = list(prefix or [])
+        decisions = list(prefix)
         npaths = 0
         exits = {'return': 0, 'raise': {}, 'cut': 0}
         info = {'key': key, 'paths': 0, 'exits': exits, 'assumed': set(), 'source_hash': self.repo.source_hash(key)
@@ -168,7 +205,7 @@ class Verifier:
             dec, ar = ip.decisions[:ip.pos], ip.arity[:ip.pos]
             while dec and dec[-1] + 1 >= (ar[len(dec) - 1] or 1):
                 dec.pop()
-            if not dec:
+            if not dec or len(dec) <= len(prefix) and prefix:
                 break
             dec[-1] += 1
             decisions = dec
